@@ -1014,7 +1014,7 @@ def tagged_rules(ctx, fmt, mod, wfn, rfn, wblocks, rblocks, vertices_dim=3):
             ra = wa
         if ra == "rest" and wb.trailing == 0:
             ra = wa
-        ctx.check(wa == ra and not wb.unknown_index if hasattr(wb, "unknown_index") else wa == ra, "C04-E1", rs,
+        ctx.check(wa == ra and not wb.unknown, "C04-E1", rs,
                   f"{fmt}: {tg}{wb.kind} rows are written with {wa} value(s) and parsed with {ra}",
                   f"the importer keeps {ra} token(s) per row, the exporter writes {wa}"
                   f"{' followed by ' + str(wb.trailing) + ' more token(s)' if wb.trailing else ''}",
@@ -1199,6 +1199,590 @@ def run_xyz(ctx, repo):
     ctx.require_count("C04-L1 xyz coordinate sites", nl, 7)
 
 
+# =========================================================================== geogram
+def chunk_writes(fn, b):
+    """[(write call, kind '[ATTR]'|'[ATTS]'|'[HEAD]', header lines (each a list of parts))] of an exporter."""
+    out = []
+    for c in sorted((c for c in au.calls(fn) if au.call_tail(c) == "write" and len(c.args) == 1),
+                    key=lambda c: (c.lineno, c.col_offset)):
+        parts = cc.flatten(c.args[0], b, c)
+        if parts and parts[0][0] == "lit" and parts[0][1].startswith("["):
+            lines = cc.lines_of(parts)
+            tag = lines[0][0][1].strip() if lines and lines[0] and lines[0][0][0] == "lit" else None
+            out.append((c, tag, lines))
+    return out
+
+
+def line_literal(line):
+    """text of a header line if it is fully literal (quotes stripped separately by the caller)"""
+    if len(line) == 1 and line[0][0] == "lit":
+        return line[0][1].strip()
+    return None
+
+
+def writer_type_fields(repo):
+    """In export_attribute: line index / quoting of each role of the [ATTR] header."""
+    fn = repo.func(GEO, "export_attribute")
+    b = sym.Bindings(fn)
+    header = None
+    for c, tag, lines in chunk_writes(fn, b):
+        if tag == "[ATTR]":
+            header = (c, cc.flatten(c.args[0], b, c))
+            break
+    if header is None:
+        return fn, None, None, None
+    c, parts = header
+    roles = {}
+    line = 0
+    for i, p in enumerate(parts):
+        if p[0] == "lit":
+            line += p[1].count("\n")
+            continue
+        if p[0] != "leaf":
+            continue
+        e = p[1].expr
+        prev = parts[i - 1][1] if i and parts[i - 1][0] == "lit" else ""
+        nxt = parts[i + 1][1] if i + 1 < len(parts) and parts[i + 1][0] == "lit" else ""
+        quoted = prev.endswith('"') and nxt.startswith('"')
+        role = None
+        if isinstance(e, ast.Call) and au.call_tail(e) in ("to_string", "byte_size"):
+            role = au.call_tail(e)
+        elif isinstance(e, ast.Attribute) and e.attr == "elemsize":
+            role = "elemsize"
+        elif isinstance(e, ast.Name) and e.id in au.params(fn):
+            role = "param:" + e.id
+        if role:
+            roles[role] = (line, quoted, p[1])
+    n_lines = sum(p[1].count("\n") for p in parts if p[0] == "lit")
+    return fn, roles, n_lines, c
+
+
+def chunk_reader_fields(repo):
+    """Chunk.__init__: {field: (line index, conversion tail)} and the first payload line."""
+    fn = repo.func(GEO, "Chunk.__init__")
+    data = au.params(fn, skip_self=True)[0]
+    fields, start = {}, set()
+    for st in au.stmts(fn.body):
+        tg = None
+        if isinstance(st, ast.Assign) and len(st.targets) == 1:
+            tg, val = st.targets[0], st.value
+        elif isinstance(st, ast.AnnAssign) and st.value is not None:
+            tg, val = st.target, st.value
+        if tg is None or not au.is_self_attr(tg):
+            continue
+        subs = [x for x in au.walk(val) if isinstance(x, ast.Subscript) and isinstance(x.value, ast.Name) and x.value.id == data]
+        if len(subs) != 1:
+            continue
+        sub = subs[0]
+        if isinstance(sub.slice, ast.Slice):
+            if sub.slice.upper is None and isinstance(au.const(sub.slice.lower), int):
+                start.add(au.const(sub.slice.lower))
+            conv = None
+            if isinstance(val, (ast.ListComp, ast.GeneratorExp)):
+                conv = au.src(val.elt)
+            fields.setdefault(tg.attr + "[]", []).append((au.const(sub.slice.lower), conv, st))
+            continue
+        k = au.const(sub.slice)
+        conv = au.call_tail(val) if isinstance(val, ast.Call) else None
+        fields[tg.attr] = (k, conv, st)
+    return fn, fields, start
+
+
+def reader_special_chunks(repo, rfn):
+    """Branches `chk.container == Chunk.Container.X and chk.name == "N"` of the importer main loop:
+    [(member name X, chunk name without quotes, If node, asserted arity, kinds appended)]"""
+    out = []
+    for st in au.stmts(rfn.body):
+        if not isinstance(st, ast.If):
+            continue
+        X = N = None
+        tests = st.test.values if isinstance(st.test, ast.BoolOp) and isinstance(st.test.op, ast.And) else [st.test]
+        for t in tests:
+            if isinstance(t, ast.Compare) and len(t.ops) == 1 and isinstance(t.ops[0], ast.Eq):
+                l, r = t.left, t.comparators[0]
+                if isinstance(l, ast.Attribute) and l.attr == "container" and isinstance(r, ast.Attribute):
+                    X = r.attr
+                if isinstance(l, ast.Attribute) and l.attr == "name" and isinstance(r, ast.Constant) and isinstance(r.value, str):
+                    N = r.value
+        if X is None or N is None:
+            continue
+        arity = None
+        for s in st.body:
+            if isinstance(s, ast.Assert) and isinstance(s.test, ast.Compare) and isinstance(s.test.left, ast.Attribute) \
+                    and isinstance(au.const(s.test.comparators[0]), int) and isinstance(s.test.ops[0], ast.Eq):
+                arity = (s.test.left.attr, au.const(s.test.comparators[0]))
+        kinds = [container_append_kind(c) for s in st.body for c in au.calls(s) if container_append_kind(c)]
+        out.append((X, N.strip('"'), st, arity, kinds))
+    return out
+
+
+def arity_tables(repo, rfn):
+    """For the variable-arity kinds: the chunk name whose presence gives the per-element arity, and the arity assumed
+    when it is absent: {kind: (chunk name, default arity, node)}"""
+    b = sym.Bindings(rfn)
+    out = {}
+    for c in au.calls(rfn):
+        kind = container_append_kind(c)
+        if kind not in ("faces", "cells") or len(c.args) != 1:
+            continue
+        row = b.resolve(c.args[0], at=c)
+        if not (isinstance(row, (ast.ListComp, ast.GeneratorExp)) and len(row.generators) == 1):
+            continue
+        it = row.generators[0].iter
+        if not (isinstance(it, ast.Call) and au.call_tail(it) == "range" and len(it.args) == 1
+                and isinstance(it.args[0], ast.Subscript) and isinstance(it.args[0].value, ast.Name)):
+            continue
+        table = it.args[0].value.id
+        # default: table = [k] * n   under `len(table) == 0`
+        default, name, node = None, None, None
+        for st in au.stmts(rfn.body):
+            if isinstance(st, ast.Assign) and len(st.targets) == 1 and isinstance(st.targets[0], ast.Name) \
+                    and st.targets[0].id == table and isinstance(st.value, ast.BinOp) and isinstance(st.value.op, ast.Mult):
+                for side in (st.value.left, st.value.right):
+                    if isinstance(side, ast.List) and len(side.elts) == 1 and isinstance(au.const(side.elts[0]), int):
+                        default, node = au.const(side.elts[0]), st
+        # filler: table.append(..) under `chk.name == "<chunk name>"`
+        names, loop_names = set(), set()
+        for a in au.calls(rfn):
+            if au.call_tail(a) == "append" and isinstance(a.func.value, ast.Name) and a.func.value.id == table:
+                for test, pol in au.guards(a):
+                    if not pol:
+                        continue
+                    for t in au.walk(test):
+                        if isinstance(t, ast.Compare) and isinstance(t.left, ast.Attribute) and t.left.attr == "name" \
+                                and isinstance(t.comparators[0], ast.Constant) and isinstance(t.comparators[0].value, str):
+                            nm = t.comparators[0].value.strip('"')
+                            names.add(nm)
+                            owner = next((i_ for i_ in au.ancestors(a) if isinstance(i_, ast.If) and i_.test is test), None)
+                            in_loop = owner is not None and any(
+                                isinstance(x, ast.For) and any(y is owner for y in au.ancestors(x)) for x in au.ancestors(a))
+                            if in_loop:
+                                loop_names.add(nm)
+        main = sorted(loop_names) or sorted(names)
+        extra = sorted(n_ for n_ in names if n_ not in main)
+        out[kind] = (main, default, node, table, extra)
+        continue
+        out[kind] = (sorted(names), default, node, table)
+    return out
+
+
+def payload_after(call):
+    """The loop that follows a chunk header write in the same block (None if the next statement is not a loop)."""
+    st = au.enclosing_stmt(call)
+    blk, _ = au.enclosing_block(st)
+    if not blk:
+        return None
+    idx = [id(x) for x in blk].index(id(st))
+    for nxt in blk[idx + 1:]:
+        if isinstance(nxt, ast.For):
+            return nxt
+        if not isinstance(nxt, (ast.Assign, ast.AnnAssign)):
+            return None
+    return None
+
+
+def values_per_iteration(loop, b):
+    """(number of values written per outer iteration | ('nested', inner iter src), leaves, write calls)"""
+    ws = [c for c in au.calls(loop) if au.call_tail(c) == "write" and len(c.args) == 1]
+    n, leaves = 0, []
+    nested = None
+    for w in ws:
+        inner = [a for a in au.ancestors(w) if isinstance(a, ast.For) and a is not loop and any(x is a for x in au.walk(loop))]
+        parts = cc.flatten(w.args[0], b, w)
+        k = sum(1 for p in parts if p[0] == "leaf")
+        leaves += [p[1] for p in parts if p[0] == "leaf"]
+        if inner:
+            nested = inner[0]
+        n += k
+    return n, nested, leaves, ws
+
+
+def _unquote(txt):
+    return txt.strip().strip('"')
+
+
+def _range_arg(loop):
+    it = loop.iter
+    if isinstance(it, ast.Call) and au.call_tail(it) == "range" and len(it.args) == 1:
+        return it.args[0]
+    return None
+
+
+def geogram_reader_tables(ctx, repo, rfn):
+    """Importer-side tables: Chunk fields by role, connectivity branches, container -> mesh field."""
+    mod = GEO
+    cfn, fields, start = chunk_reader_fields(repo)
+    special = reader_special_chunks(repo, rfn)
+    member_field = {}
+    for n_ in au.walk(rfn):
+        if isinstance(n_, ast.Dict) and n_.keys and all(isinstance(k, ast.Attribute) for k in n_.keys) \
+                and all(isinstance(v, ast.Attribute) for v in n_.values):
+            member_field = {k.attr: v.attr for k, v in zip(n_.keys, n_.values)}
+    role_field = {}
+    for f_, v in fields.items():
+        if f_.endswith("[]"):
+            continue
+        k, conv, st = v
+        if conv == "from_string":
+            role_field["container" if "Container" in au.src(st.value.func) else "type"] = f_
+    for c in au.calls(rfn):
+        if au.call_tail(c) == "create_attribute" and len(c.args) >= 3 and isinstance(c.args[2], ast.Attribute) \
+                and isinstance(c.args[1], ast.Attribute) and c.args[1].attr == role_field.get("type"):
+            role_field["arity"] = c.args[2].attr
+            nm = [x.attr for x in au.walk(c.args[0]) if isinstance(x, ast.Attribute) and x.attr in fields]
+            if nm:
+                role_field["name"] = nm[0]
+    return cfn, fields, start, special, member_field, role_field
+
+
+def g1_header_layout(ctx, repo, wfn, afn, fields, start, role_field):
+    """[ATTR] header written by export_attribute vs the lines Chunk.__init__ indexes; payload shape; Bool text."""
+    mod = GEO
+    asite = ctx.site(mod, afn)
+    _, roles, n_lines, hdr = writer_type_fields(repo)
+    if not roles or not {"container", "type", "arity", "name"} <= set(role_field):
+        ctx.fail("C04-G1", asite, "geogram: [ATTR] header layout not found",
+                 f"writer roles {sorted(roles or [])}, reader roles {sorted(role_field)}")
+        return roles, None
+    calls = [c for c in au.calls(wfn) if au.call_tail(c) == "export_attribute"]
+    ctx.require_count("C04-G1 export_attribute call sites", len(calls), 7)
+    aps = au.params(afn)
+    lit_pos = {i for c in calls for i, a in enumerate(c.args) if isinstance(a, ast.Constant) and isinstance(a.value, str)}
+    cont_param = aps[min(lit_pos)] if len(lit_pos) == 1 else None
+    key_pos = set()
+    for c in calls:
+        lp = [a for a in au.ancestors(c) if isinstance(a, ast.For)]
+        if lp and isinstance(lp[0].target, ast.Name):
+            key_pos |= {i for i, a in enumerate(c.args) if isinstance(a, ast.Name) and a.id == lp[0].target.id}
+    name_param = aps[min(key_pos)] if len(key_pos) == 1 else None
+    pairs = [("type", "to_string"), ("arity", "elemsize"), ("container", "param:" + str(cont_param)),
+             ("name", "param:" + str(name_param))]
+    for rrole, wrole in pairs:
+        rk = fields[role_field[rrole]][0]
+        wl = roles.get(wrole, (None,))[0]
+        ctx.check(wl == rk, "C04-G1", asite,
+                  f"geogram: the {rrole} of an attribute is written on header line {wl} and read from line {rk}",
+                  f"Chunk.__init__ takes self.{role_field[rrole]} from line {rk} of the chunk; a user attribute comes back "
+                  f"with the wrong {rrole} or fails to parse", note=f"geogram [ATTR] header: {rrole} on line {rk}")
+    ctx.check(n_lines in start, "C04-G1", asite,
+              f"geogram: attribute values start on line {n_lines} of the chunk, the importer reads them from line {sorted(start)}",
+              "header lines parsed as values (or values skipped)", note=f"geogram [ATTR] payload starts on line {n_lines}")
+    # payload: dense, element-major, `elemsize` values per element
+    ab = sym.Bindings(afn)
+    outer = [st for st in afn.body if isinstance(st, ast.For)]
+    ok, nvals = False, 0
+    if len(outer) == 1 and isinstance(_range_arg(outer[0]), ast.Name) and _range_arg(outer[0]).id in aps \
+            and isinstance(outer[0].target, ast.Name):
+        i = outer[0].target.id
+        ok = True
+        for w in [c for c in au.calls(outer[0]) if au.call_tail(c) == "write" and len(c.args) == 1]:
+            parts = cc.flatten(w.args[0], ab, w)
+            lv = [p_[1] for p_ in parts if p_[0] == "leaf"]
+            inner = [a for a in au.ancestors(w) if isinstance(a, ast.For) and a is not outer[0]
+                     and any(x is a for x in au.walk(outer[0]))]
+            for lf in lv:
+                nvals += 1
+                subs = [x for x in au.walk(lf.expr) if isinstance(x, ast.Subscript)]
+                idx = [au.src(x.slice) for x in sorted(subs, key=lambda x: len(au.src(x)))]
+                if inner:
+                    j = inner[0].target.id if isinstance(inner[0].target, ast.Name) else None
+                    good = idx[:2] == [i, j] and _range_arg(inner[0]) is not None \
+                        and au.same(_range_arg(inner[0]), roles["elemsize"][2].expr)
+                else:
+                    good = idx[:1] == [i] and len(idx) == 1
+                ok = ok and good and len(lv) == 1
+    ctx.check(ok and nvals >= 2, "C04-G1", asite,
+              "geogram: export_attribute does not write attr[i] (or attr[i][0..elemsize-1]) for every i in range(size)",
+              "the importer assigns value group k to element k; a sparse / transposed dump attaches values to the wrong elements",
+              note="geogram: attribute payload is dense and element-major")
+    # Bool values in the integer form the importer parses
+    bool_reader_int = any("Bool" in au.src(t) and conv and "int(" in conv
+                          for lo, conv, st in fields.get("data[]", []) for t, pol in au.guards(st) if pol)
+    nb = 0
+    if len(outer) == 1:
+        for lf in cc.leaves(afn, ab):
+            if not any(a is outer[0] for a in au.ancestors(lf.node)):
+                continue
+            if lf.how == "str" or not any(isinstance(x, ast.Subscript) for x in au.walk(lf.expr)):
+                continue
+            gs = [(t, pol) for t, pol in au.guards(lf.node, stop=outer[0]) if "Bool" in au.src(t)]
+            as_int = isinstance(lf.expr, ast.Call) and isinstance(lf.expr.func, ast.Name) and lf.expr.func.id == "int"
+            nb += 1
+            if bool_reader_int:
+                good = (gs and not gs[0][1]) or as_int
+                ctx.check(bool(good), "C04-A1", ctx.site(mod, afn, lf.node),
+                          f"geogram: a Bool attribute value may be written as `{au.src(lf.expr)}` (True/False), the importer "
+                          f"parses bool(int(token))", "int('True') raises: a mesh with a Bool attribute cannot be reloaded",
+                          note="geogram: Bool values written through int()")
+    ctx.require_count("C04-A1 attribute value sites", nb, 4)
+    return roles, cont_param
+
+
+def g1_import_stride(ctx, repo, iafn, role_field):
+    mod = GEO
+    ib = sym.Bindings(iafn)
+    isite = ctx.site(mod, iafn)
+    subs = [x for x in au.walk(iafn) if isinstance(x, ast.Subscript) and isinstance(x.ctx, ast.Load)
+            and isinstance(x.value, ast.Attribute) and x.value.attr == "data" and not isinstance(x.slice, ast.Slice)]
+    ok = False
+    if len(subs) == 1:
+        x = subs[0]
+        loops = [a for a in au.ancestors(x) if isinstance(a, ast.For)]
+        if len(loops) >= 2 and all(isinstance(l.target, ast.Name) for l in loops[:2]):
+            j, i = loops[0].target.id, loops[1].target.id
+            p = sym.to_poly(ib.resolve(x.slice, at=x, keep=(i, j)))
+            jr, ir = _range_arg(loops[0]), _range_arg(loops[1])
+            if jr is not None and ir is not None:
+                stride = sym.to_poly(jr)
+                ok = p.coeff(j) == sym.Poly.const(1) and p.coeff(i) == stride and p.without(i).without(j).is_zero() \
+                    and isinstance(ir, ast.BinOp) and isinstance(ir.op, ast.FloorDiv) and sym.to_poly(ir.right) == stride \
+                    and isinstance(jr, ast.Attribute) and jr.attr == role_field.get("arity")
+    ctx.check(ok, "C04-G1", isite, "geogram: import_attribute does not read value j of element i at data[arity*i + j]",
+              "values are written element-major with `arity` values per element", note="geogram: import stride = arity")
+
+
+def geogram_chunks(ctx, repo, wfn, prov, b, special, start, tfold, fold_container):
+    """Literal connectivity chunks of the exporter against the importer branches; returns the chunk names written and
+    the [ATTS] table."""
+    mod = GEO
+    chunks = chunk_writes(wfn, b)
+    atts = {}
+    for c, tag, lines in chunks:
+        if tag == "[ATTS]" and len(lines) >= 3 and line_literal(lines[1]):
+            m = fold_container(line_literal(lines[1]))
+            cnt = lines[2][0][1] if lines[2] and lines[2][0][0] == "leaf" else None
+            atts[m.name if m else line_literal(lines[1])] = (c, cnt)
+    names_written = set()
+    n_chunks = 0
+    for c, tag, lines in chunks:
+        if tag != "[ATTR]":
+            continue
+        n_chunks += 1
+        site = ctx.site(mod, wfn, c)
+        lits = [line_literal(l) for l in lines]
+        if len(lines) not in start or any(x is None for x in lits):
+            ctx.fail("C04-G1", site, "geogram: connectivity chunk header is not the literal lines the importer indexes",
+                     f"header lines: {lits}")
+            continue
+        cont_w, name, typ, nbytes, arity = lits[1], _unquote(lits[2]), lits[3], lits[4], lits[5]
+        names_written.add(name)
+        m = fold_container(cont_w)
+        match = [sp for sp in special if m is not None and sp[0] == m.name and sp[1] == name]
+        if not match:
+            near = [sp for sp in special if sp[1].split("::")[-1] == name.split("::")[-1]]
+            ctx.fail("C04-E1", site,
+                     f"geogram: chunk {name} written under {_unquote(cont_w)} matches no connectivity branch of the importer",
+                     f"the importer looks for "
+                     f"{('`' + near[0][1] + '` of Container.' + near[0][0]) if near else 'other names'}; this chunk is read back as a "
+                     f"user attribute of {m} and the connectivity it carries is lost")
+        else:
+            X, N, ifnode, asserted, kinds = match[0]
+            ctx.ok("C04-E1", site, f"geogram: chunk {name} of {X} has an importer branch")
+            try:
+                T = tfold.call("from_string", typ)
+            except (cc.Raised, cc.Unfoldable):
+                T = None
+            wantT = "Float" if "vertices" in kinds else "Int"
+            ctx.check(T is not None and T.name == wantT, "C04-E1", site,
+                      f"geogram: chunk {name} is declared with type {typ}, parsed as {T} (its values are {wantT.lower()}s)",
+                      "Chunk.__init__ converts the payload according to the declared type")
+            try:
+                bs = tfold.call("byte_size", T) if T is not None else None
+            except (cc.Raised, cc.Unfoldable):
+                bs = None
+            ctx.check(str(bs) == nbytes, "C04-E1", site,
+                      f"geogram: chunk {name} declares {nbytes} bytes per value, the type table says {bs} for {T}",
+                      "independent readers size the payload with this field")
+            if asserted is not None:
+                ctx.check(str(asserted[1]) == arity, "C04-E1", site,
+                          f"geogram: chunk {name} declares {arity} value(s) per element, the importer asserts {asserted[1]}",
+                          "the importer raises AssertionError on reload")
+        # payload
+        lp = payload_after(c)
+        if lp is None:
+            ctx.fail("C04-G1", site, f"geogram: payload loop of chunk {name} not found", "")
+            continue
+        nvals, nested, lvs, ws = values_per_iteration(lp, b)
+        ctx.check(str(nvals) == arity, "C04-G1", ctx.site(mod, wfn, lp),
+                  f"geogram: chunk {name} declares {arity} value(s) per element but {nvals} are written per element",
+                  "the importer groups the payload by the declared arity")
+        it, _ = cc.strip_enumerate(lp.iter)
+        itr = b.resolve(it, at=lp)
+        is_attr_obj = isinstance(itr, ast.Call) and au.call_tail(itr) in ("get_attribute", "create_attribute")
+        dense = prov.container_kind(it) is not None or (isinstance(it, ast.Call) and au.call_tail(it) == "range")
+        ctx.check(not is_attr_obj, "C04-G1", ctx.site(mod, wfn, lp),
+                  f"geogram: the payload of chunk {name} iterates the attribute object itself",
+                  f"`for .. in {au.src(it)}`: iterating a sparse Attribute yields the keys of its non-default entries, not one value per element: the "
+                  "keys (tuples for cell facets) are written as values and int() fails on reload",
+                  note=f"geogram: payload of {name} runs over the elements")
+        if not is_attr_obj:
+            ctx.check(dense, "C04-G1", ctx.site(mod, wfn, lp),
+                      f"geogram: payload loop of chunk {name} does not run over all elements",
+                      "one group of values per element, in element order")
+    ctx.require_count("C04-E1 geogram connectivity chunks", n_chunks, 5)
+    return names_written, atts
+
+
+def geogram_containers(ctx, repo, wfn, member_field, quoted, fold_container):
+    mod = GEO
+    for c in [c for c in au.calls(wfn) if au.call_tail(c) == "export_attribute"]:
+        lit = [a for a in c.args if isinstance(a, ast.Constant) and isinstance(a.value, str)]
+        lp = [a for a in au.ancestors(c) if isinstance(a, ast.For)]
+        fld = None
+        if lp and isinstance(lp[0].iter, ast.Attribute) and lp[0].iter.attr == "attributes" \
+                and isinstance(lp[0].iter.value, ast.Attribute):
+            fld = lp[0].iter.value.attr
+        if not lit or fld is None:
+            ctx.fail("C04-E1", ctx.site(mod, wfn, c), "geogram: export_attribute call without a literal container / attribute loop", "")
+            continue
+        q = '"' if quoted else ""
+        m = fold_container(q + lit[0].value + q)
+        ctx.check(m is not None and member_field.get(m.name) == fld, "C04-E1", ctx.site(mod, wfn, c),
+                  f"geogram: attributes of mesh.{fld} are written under container name {lit[0].value}, which the importer maps to "
+                  f"{('mesh.' + str(member_field.get(m.name))) if m is not None else 'no container'}",
+                  f"Chunk.Container.from_string({lit[0].value!r}) is {m}: a user attribute on mesh.{fld} "
+                  f"{'makes the importer raise (container not recognised)' if m is None else 'comes back on another container'}",
+                  note=f"geogram: mesh.{fld} attributes -> {m}")
+
+
+def geogram_counts(ctx, repo, wfn, rfn, b, mesh, special, member_field, atts):
+    mod = GEO
+    wsite = ctx.site(mod, wfn)
+    for X in sorted({sp[0] for sp in special} | {"VERTICES"}):
+        used = any(isinstance(x, ast.Subscript) and isinstance(x.slice, ast.Attribute) and x.slice.attr == X
+                   and isinstance(au.parent(x), ast.Call) and au.call_tail(au.parent(x)) == "range" for x in au.walk(rfn))
+        if not used:
+            continue
+        fld = member_field.get(X)
+        ent = atts.get(X)
+        if ent is None:
+            ctx.fail("C04-H1", wsite, f"geogram: no [ATTS] chunk gives the number of {fld}",
+                     f"the importer loops over container_sizes[{X}] (0 when absent): no {fld} are loaded")
+            continue
+        c, cnt = ent
+        r = b.resolve(cnt.expr, at=c) if cnt is not None else None
+        ok = isinstance(r, ast.Call) and isinstance(r.func, ast.Name) and r.func.id == "len" and len(r.args) == 1 \
+            and au.src(r.args[0]) == f"{mesh}.{fld}"
+        ctx.check(ok, "C04-H1", ctx.site(mod, wfn, c),
+                  f"geogram: the [ATTS] count of {X} is `{au.src(r) if r is not None else None}`, not len({mesh}.{fld})",
+                  f"the importer reads exactly that many {fld}", note=f"geogram: [ATTS] {X} = len(mesh.{fld})")
+
+
+def geogram_arity_tables(ctx, repo, wfn, rfn, wblocks, names_written):
+    mod = GEO
+    rsite = ctx.site(mod, rfn)
+    tables = arity_tables(repo, rfn)
+    ctx.require_count("C04-E1 geogram arity tables", len(tables), 2)
+    for kind, (names, default, node, table, extra) in sorted(tables.items()):
+        ctx.check(not extra and len(names) <= 1, "C04-E1", rsite,
+                  f"geogram: the size table of {kind} is also filled while reading chunk {', '.join(extra or names[1:])}",
+                  f"`{table}` must hold one entry per {kind[:-1]}, all taken from `{names[0] if names else '?'}`; an entry appended while "
+                  f"reading another chunk leaves that chunk's own table one short (IndexError on its last element) and corrupts this one",
+                  note=f"geogram: sizes of {kind} come from one chunk")
+        wbs = [wb for wb in wblocks if wb.kind == kind]
+        if not wbs or not names or default is None:
+            ctx.fail("C04-E1", rsite, f"geogram: arity recovery for {kind} not found",
+                     f"importer table {table}: chunk names {names}, default {default}; exporter blocks {len(wbs)}")
+            continue
+        restricted = all(wb.guard_n == default for wb in wbs)
+        written = any(n_ in names_written for n_ in names)
+        ctx.check(written or restricted, "C04-E1", ctx.site(mod, wfn, wbs[0].write),
+                  f"geogram: {kind} of any size are written but the `{names[0]}` chunk giving their sizes is never written",
+                  f"without that chunk the importer assumes {default} vertices per {kind[:-1]}: a mesh with other "
+                  f"{kind} (quads / polygons, hexahedra / prisms) reloads as {default}-vertex {kind} cut out of the corner list",
+                  note=f"geogram: sizes of {kind} recoverable")
+
+
+def geogram_rows(ctx, repo, rfn, cfn, rblocks, fields):
+    mod = GEO
+    rb_b = sym.Bindings(rfn)
+    for rb in rblocks:
+        e = rb.node.args[0]
+        for _ in range(3):
+            if isinstance(e, ast.Name):
+                e = rb_b.reaching(e.id, rb.node) or e
+            if isinstance(e, ast.Call) and au.call_tail(e) in WRAPPERS and len(e.args) == 1:
+                e = e.args[0]
+        site = ctx.site(mod, rfn, rb.node)
+        loops = [a for a in au.ancestors(rb.node) if isinstance(a, ast.For)]
+        i = loops[0].target.id if loops and isinstance(loops[0].target, ast.Name) else None
+        if isinstance(e, (ast.List, ast.Tuple)) and i:
+            k = len(e.elts)
+            ok = True
+            for r_, x in enumerate(e.elts):
+                if not (isinstance(x, ast.Subscript) and isinstance(x.value, ast.Attribute) and x.value.attr == "data"):
+                    ok = False
+                    break
+                p = sym.to_poly(x.slice)
+                ok = ok and p.coeff(i) == sym.Poly.const(k) and p.without(i).is_const() and p.without(i).const_value() == r_
+            ctx.check(ok, "C04-G1", site, f"geogram: {rb.kind} row is not (data[{k}*i], .., data[{k}*i+{k - 1}])",
+                      f"the exporter writes {k} values per element, element after element",
+                      note=f"geogram: {rb.kind} row read with stride {k}")
+        elif isinstance(e, (ast.ListComp, ast.GeneratorExp)) and len(e.generators) == 1 \
+                and isinstance(e.generators[0].target, ast.Name):
+            j = e.generators[0].target.id
+            ok = isinstance(e.elt, ast.Subscript) and isinstance(e.elt.value, ast.Attribute) and e.elt.value.attr == "data"
+            if ok:
+                p = sym.to_poly(e.elt.slice)
+                ok = p.coeff(j) == sym.Poly.const(1) and not e.generators[0].ifs
+            ctx.check(ok, "C04-V1", site, f"geogram: corners of a {rb.kind[:-1]} are not read as data[ptr + 0 .. ptr + n-1] in order",
+                      "the exporter writes the corners of each element consecutively in stored order",
+                      note=f"geogram: {rb.kind} corners read consecutively in order")
+        else:
+            ctx.fail("C04-G1", site, f"geogram: {rb.kind} row construction not found", "")
+    for lo, conv, st in fields.get("data[]", []):
+        g = " ".join(au.src(t) for t, pol in au.guards(st) if pol)
+        if conv is None:
+            continue
+        cv, off = _conv_of(st.value.elt)
+        if ".Int" in g:
+            ctx.check(cv == "int" and off == 0, "C04-B1", ctx.site(mod, cfn, st),
+                      f"geogram: integer payload parsed as `{conv}`", "geogram indices are 0-based integers",
+                      note="geogram: index payload parsed with int(token)")
+        elif ".Float" in g:
+            ctx.check(cv in FLOAT_OK and off == 0, "C04-L1", ctx.site(mod, cfn, st),
+                      f"geogram: float payload parsed as `{conv}`", "coordinates must be recovered bit-exactly",
+                      note="geogram: coordinates parsed as float64")
+
+
+def run_geogram(ctx, repo):
+    fmt, mod = "geogram", GEO
+    wfn, rfn = repo.func(mod, "export_geogram_ascii"), repo.func(mod, "import_geogram_ascii")
+    afn, iafn = repo.func(mod, "export_attribute"), repo.func(mod, "import_attribute")
+    prov, b, wblocks = writer_blocks(fmt, wfn)
+    rblocks = reader_blocks(repo, fmt, mod, rfn)
+    cfold = cc.Folder(repo.cls(mod, "Chunk.Container"))
+    tfold = cc.Folder(repo.cls(ATTR, "_BaseAttribute.Type"))
+    ctx.site(mod, repo.func(mod, "Chunk.Container.from_string"))
+
+    def fold_container(written):
+        try:
+            return cfold.call("from_string", written)
+        except (cc.Raised, cc.Unfoldable):
+            return None
+    cfn, fields, start, special, member_field, role_field = geogram_reader_tables(ctx, repo, rfn)
+    ctx.site(mod, cfn)
+    ctx.require_count("C04-E1 geogram importer connectivity branches", len(special), 5)
+    ctx.require_count("C04-E1 geogram container table", len(member_field), 7)
+    ctx.require_count("C04-E1 geogram exporter row blocks", len(wblocks), 3)
+    ctx.require_count("C04-E1 geogram importer row blocks", len(rblocks), 4)
+    roles, cont_param = g1_header_layout(ctx, repo, wfn, afn, fields, start, role_field)
+    g1_import_stride(ctx, repo, iafn, role_field)
+    names_written, atts = geogram_chunks(ctx, repo, wfn, prov, b, special, start, tfold, fold_container)
+    quoted = bool(roles and cont_param and roles.get("param:" + cont_param, (0, False))[1])
+    geogram_containers(ctx, repo, wfn, member_field, quoted, fold_container)
+    geogram_counts(ctx, repo, wfn, rfn, b, prov.mesh, special, member_field, atts)
+    geogram_arity_tables(ctx, repo, wfn, rfn, wblocks, names_written)
+    geogram_rows(ctx, repo, rfn, cfn, rblocks, fields)
+    nb = b1_writer_offsets(ctx, fmt, mod, wfn, prov, b)
+    ctx.require_count("C04-B1 geogram index sites", nb, 4)
+    nl = l1_float_format(ctx, fmt, mod, wfn, prov, b)
+    ctx.require_count("C04-L1 geogram coordinate sites", nl, 1)
+    nv = v1_writer_order(ctx, fmt, mod, wfn, prov, b)
+    nv += v1_reader_order(ctx, fmt, mod, [], rblocks, wfn)
+    ctx.require_count("C04-V1 geogram rows", nv, 3)
+
+
 def run_formats(ctx):
     repo = ctx.repo
     run_medit(ctx, repo)
@@ -1206,3 +1790,4 @@ def run_formats(ctx):
     run_off(ctx, repo)
     run_tet(ctx, repo)
     run_xyz(ctx, repo)
+    run_geogram(ctx, repo)
